@@ -33,8 +33,14 @@ def validator_paths(ctx: Ctx, fam: Family) -> List[Tuple[Path, Replay]]:
     key = "vpaths:" + fam.name
     def build():
         out = []
+        from ..symx import joint_contradiction
         for p in enumerate_paths(ctx.prog, fam.validator, no_raise):
-            out.append((p, Replay(ctx.prog, fam.validator, p)))
+            r = Replay(ctx.prog, fam.validator, p)
+            if joint_contradiction(r.facts, r.facts) is not None:
+                # the path takes the same comparison both ways (x == c ... x != c): infeasible
+                ctx._cache.setdefault("vpaths-infeasible:" + fam.name, []).append(p)
+                continue
+            out.append((p, r))
         return out
     return ctx.memo(key, build)
 
@@ -284,6 +290,14 @@ def r2(ctx: Ctx, rep: Report, fams: Dict[str, Family]):
             if None in (cmd_t, off_t, val_t):
                 raise AnalysisError("validator lambda of %s does not pass cmd/offset/value" % fam.name)
             allowed, excluded, equals = domain_constraints(facts, fc_t)
+            if cmd_t in equals:
+                # function code == cmd on this path: what the path tests about cmd holds for the function code as well
+                allowed_c, excluded_c, _ = domain_constraints(facts, cmd_t)
+                if allowed_c is not None:
+                    allowed = set(allowed_c) if allowed is None else (set(allowed) & set(allowed_c))
+                excluded = set(excluded) | set(excluded_c)
+                if allowed is not None:
+                    allowed = {c for c in allowed if c not in excluded}
             missing = []
             if cmd_t not in equals:
                 missing.append("function code %s == cmd" % term_str(fc_t))
